@@ -59,9 +59,30 @@ def gen_mem(rng, machine, equal_banks=False):
             return {'fill': 0}
         return {'rand': rng.getrandbits(48)}
     if machine == '48K':
-        return {'machine': '48K', 'ram': spec(), 'patches': []}
+        return {'machine': '48K', 'ram': spec(), 'patches': codec_patches(rng)}
     o7ffd = rng.choice((0, 0, 1, 3, 4, 5, 7, 16, 17, 23, 0x10 | rng.randrange(8), rng.randrange(32), rng.randrange(256)))
-    return {'machine': machine, 'banks': [spec() for _ in range(8)], 'o7ffd': o7ffd, 'patches': []}
+    return {'machine': machine, 'banks': [spec() for _ in range(8)], 'o7ffd': o7ffd, 'patches': codec_patches(rng)}
+
+def codec_patches(rng):
+    """Contents that stress the snapshot codecs used as durable storage: runs of 0xED and of equal bytes of
+    critical lengths, placed at the ends and starts of 16K pages and elsewhere."""
+    if rng.random() < 0.6:
+        return []
+    out = []
+    for _ in range(rng.randrange(1, 5)):
+        b = rng.choice((0xED, 0xED, 0xED, 0x00, 0xFF, rng.randrange(256)))
+        n = rng.choice((1, 2, 3, 4, 5, 6, 254, 255, 256, 257))
+        page_end = rng.choice((0x8000, 0xC000, 0x10000))
+        r = rng.random()
+        if r < 0.5:
+            a = page_end - n
+        elif r < 0.7:
+            a = page_end - 0x4000
+        else:
+            a = rng.randrange(0x4000, 0x10000 - n)
+        pre = bytes((rng.choice((0x00, 0xED, 0x41)),)) if a > 0x4000 and rng.random() < 0.7 else b''
+        out.append([a - len(pre), (pre + bytes((b,)) * n).hex()])
+    return out
 
 # ---------------------------------------------------------------------------
 # Instruction lengths (algorithmic; used only to lay out generated programs)
